@@ -44,6 +44,7 @@ Proof.
     + apply (J7 s I u q m0).
   - intros u. rewrite HT. destruct (Nat.eqb_spec u t) as [->|Hne']; cbn [started x']; [discriminate|].
     apply (J8 s I u).
+  - intros _ H0. rewrite Htot in H0. lia.
 Qed.
 
 (* ---------- AClone ---------- *)
@@ -91,4 +92,5 @@ Proof.
         intros m' Hin. apply Hall. cbn [firstn]. right. exact Hin.
   - intros u. rewrite HT. destruct (Nat.eqb_spec u t) as [->|Hne']; cbn [started x']; [discriminate|].
     apply (J8 s I u).
+  - intros _ H0. lia.
 Qed.
